@@ -132,10 +132,12 @@ fn fire(outcome: Outcome, token: &str) -> ! {
 #[cfg(feature = "tracing")]
 fn emit_log(tok: &str) {
     // message shapes: plain, multi-line, and containing the collector's `__` separator
-    match tok.len() % 3 {
+    match tok.bytes().map(u32::from).sum::<u32>() % 4 {
         0 => tracing::info!("{tok}"),
         1 => tracing::info!("first line\nsecond line {tok}"),
-        _ => tracing::info!("dunder __ inside __{tok}"),
+        2 => tracing::info!("dunder __ inside __{tok}"),
+        // the collector's own "no scenario" marker inside a user message (was lost before cfc4b1b+1)
+        _ => tracing::info!("marker __unknown inside {tok}"),
     }
 }
 #[cfg(not(feature = "tracing"))]
